@@ -75,7 +75,7 @@ Proof. intros E H1 H2. unfold getop in *. rewrite E in H2. congruence. Qed.
 
 Theorem step_fsext s e : fsext s (step s e).
 Proof.
-  destruct e as [k tmo| | | |how|r|o|o|o|dt|o|k tmo|o]; unfold step.
+  destruct e as [k tmo| | | |how|r|o|o|o|dt|o|o|k tmo|o]; unfold step.
   - (* Start *) destruct (next_msgid (last s) (inuse s)); try apply fsext_refl.
     destruct (is_running s).
     + match goal with |- fsext ?s0 (set opq _ ?x) => apply (fsext_set s0 x); [|reflexivity] end.
@@ -127,6 +127,7 @@ Proof.
     all: intros c0 H0; rewrite (Hs _ c0 eq_refl H0); apply fext_live; [intros p E; congruence|intros e E; congruence|exists []; now rewrite app_nil_r].
   - (* Advance *) repeat fstrip.
   - (* ViaHandle *) repeat fstrip.
+  - (* DropCall *) destruct (getop s o) as [c|] eqn:Ec; [destruct (o_status c) eqn:Est|]; repeat fstrip.
   - (* Alloc *) unfold alloc. destruct (next_msgid (last s) (inuse s)); try apply fsext_refl.
     match goal with |- fsext ?s0 (set ops _ ?l) => apply (fsext_app s0 l); reflexivity end.
   - (* Enqueue: only an allocated, not yet queued operation changes *)
